@@ -325,6 +325,35 @@ func main() {
 		roundTrip(c, g)
 		c.NonTrivial()
 	})
+	// points whose printed text is a suffix, a prefix or a digit-wise extension of another point's text in the same
+	// vertex list (a parser that compares or searches text instead of coordinates confuses them): first / last vertex
+	// pairs of unclosed lists and of closed ones, through every kind that holds a vertex list
+	textPairs := [][2]orb.Point{{{1, 2}, {-1, 2}}, {{5, 0}, {15, 0}}, {{0.5, 1e-07}, {-0.5, 1e-07}}, {{5e+30, 1}, {2.5e+30, 1}}, {{1, 2}, {1, 25}}, {{1, 2}, {11, 2}}, {{-1, 2}, {1, 2}}, {{1, 2}, {1, 2}}}
+	r.Explore("text-alike-vertices", fmt.Sprintf("%d pairs of vertices whose texts contain each other x position {first/last, last/first, neighbours} x 7 kinds: the round trip returns every coordinate", len(textPairs)), mc.Opts{MaxDev: -1}, func(c *mc.Ctx) {
+		pr := textPairs[c.Choose(len(textPairs))]
+		a, b := pr[0], pr[1]
+		var list []orb.Point
+		switch c.Choose(3) {
+		case 0:
+			list = []orb.Point{a, {3, 4}, {5, 6}, b}
+		case 1:
+			list = []orb.Point{b, {3, 4}, {5, 6}, a}
+		default:
+			list = []orb.Point{{3, 4}, a, b, {5, 6}}
+		}
+		cp := func() []orb.Point { return append([]orb.Point(nil), list...) }
+		for _, g := range []orb.Geometry{
+			orb.MultiPoint(cp()), orb.LineString(cp()), orb.Ring(cp()),
+			orb.Polygon{{{0, 0}, {9, 0}, {9, 9}, {0, 0}}, orb.Ring(cp())},
+			orb.Polygon{orb.Ring(cp()), {{0, 0}, {9, 0}, {9, 9}, {0, 0}}},
+			orb.MultiLineString{{{7, 7}, {8, 8}}, orb.LineString(cp())},
+			orb.MultiPolygon{{{{0, 0}, {9, 0}, {9, 9}, {0, 0}}}, {orb.Ring(cp()), orb.Ring(cp())}},
+			orb.Collection{orb.Point{1, 1}, orb.Polygon{orb.Ring(cp())}},
+		} {
+			roundTrip(c, g)
+		}
+		c.NonTrivial()
+	})
 	r.Explore("sizes", fmt.Sprintf("6 count dimensions (points of a multi-point, vertices of a line, rings of a polygon, lines of a multi-line, polygons of a multi-polygon, members of a flat collection) x counts %v: round trip through the generic and the typed parsers", wsizes), mc.Opts{MaxDev: -1, Split: 2}, func(c *mc.Ctx) {
 		dim := c.Choose(6)
 		n := wsizes[c.Choose(len(wsizes))]
